@@ -115,7 +115,7 @@ def rwlock_guard_rules(ctx, RULE):
             ps = [(qb, qt) for qb, qt in polls if XB.block_dominates(qb, held[0])]
             fut = '?'
             if ps:
-                qb, qt = max(ps, key=lambda x: x[0])
+                qb, qt = max(ps, key=lambda x: sum(1 for y_ in ps if XB.block_dominates(y_[0], x[0])))      # the innermost dominating poll (block numbers say nothing after inlining)
                 fo = XB.origin(qt['args'][0])
                 fut = str(fo[1]).rsplit('::', 2)[-2] + '::' + str(fo[1]).rsplit('::', 1)[-1] if fo and fo[0] == 'call' else '?'
             base = k.split('::{')[0]
